@@ -474,7 +474,7 @@ func buildEvidence(rt *rapid.T, rng *rand.Rand, w *world, kind string) (*bft.Dou
 			if p := s.BlockOf(a.BlockHash); p != nil {
 				a.Block, a.Results = p.Block, p.Results
 			} else {
-				a.Results = s.MakeResults(0, nil)
+				a.Results = s.MakeResults(0, nil, 0)
 			}
 		case "unsigned-bits":
 			// set bits of validators that signed the OTHER payload (to implicate them) without having their signature on this one
